@@ -237,7 +237,7 @@ package valid
 //@   requires lru.wf(l) && mu.held(addr.rwMu(l)) == 0
 //@   modifies mu.held(addr.rwMu(l)), mu.acq(addr.rwMu(l))
 //@   ensures [C09 len.count] result == len(l.nodeMap) && result >= 0
-//@   ensures [C10 len.unlocked] mu.held(addr.rwMu(l)) == 0 && mu.acq(addr.rwMu(l)) == old(mu.acq(addr.rwMu(l))) + 1
+//@   ensures [C10 C11 len.unlocked] mu.held(addr.rwMu(l)) == 0 && mu.acq(addr.rwMu(l)) == old(mu.acq(addr.rwMu(l))) + 1
 
 //@ func (*LRUCache).Load
 //@   requires lru.wf(l) && mu.held(addr.rwMu(l)) == 0
@@ -249,7 +249,7 @@ package valid
 //@   ensures [C09 load.touch]  ok ==> forall(k Iface :: has(l.nodeMap, k) && k != key ==> lst.stamp(l.list, l.nodeMap[k]) < lst.stamp(l.list, l.nodeMap[key]))
 //@   ensures [C09 load.others] forall(k Iface :: has(l.nodeMap, k) && k != key ==> lst.stamp(l.list, l.nodeMap[k]) == old(lst.stamp(l.list, l.nodeMap[k])))
 //@   ensures [C09 load.nomiss-effect] !ok ==> forall(x Int :: lst.stamp(l.list, x) == old(lst.stamp(l.list, x)))
-//@   ensures [C10 load.unlocked] mu.held(addr.rwMu(l)) == 0 && mu.acq(addr.rwMu(l)) == old(mu.acq(addr.rwMu(l))) + 1
+//@   ensures [C10 C11 load.unlocked] mu.held(addr.rwMu(l)) == 0 && mu.acq(addr.rwMu(l)) == old(mu.acq(addr.rwMu(l))) + 1
 
 //@ func (*LRUCache).delete
 //@   requires lru.rep(l) && lst.size(l.list) == len(l.nodeMap) && node != nil && lst.mem(l.list, node)
@@ -286,7 +286,7 @@ package valid
 //@         && forall(k Iface :: k != cb.key && k != key ==> has(l.nodeMap, k) == old(has(l.nodeMap, k)))
 //@   ensures [C09 store.others] forall(k Iface :: k != key && has(l.nodeMap, k) ==> old(has(l.nodeMap, k)) && eval(l.nodeMap[k]) == old(eval(l.nodeMap[k])) && lst.stamp(l.list, l.nodeMap[k]) == old(lst.stamp(l.list, l.nodeMap[k])))
 //@   ensures [C09 store.cap0]   l.maxSize == 0 ==> len(l.nodeMap) == 0 && (l.deleteCallBackFn != nil ==> cb.count == old(cb.count) + 1 && cb.key == key && cb.val == value)
-//@   ensures [C10 store.unlocked] mu.held(addr.rwMu(l)) == 0 && mu.acq(addr.rwMu(l)) == old(mu.acq(addr.rwMu(l))) + 1
+//@   ensures [C10 C11 store.unlocked] mu.held(addr.rwMu(l)) == 0 && mu.acq(addr.rwMu(l)) == old(mu.acq(addr.rwMu(l))) + 1
 
 //@ func (*LRUCache).Delete
 //@   requires lru.wf(l) && mu.held(addr.rwMu(l)) == 0
@@ -297,11 +297,11 @@ package valid
 //@   ensures [C09 del.others] forall(k Iface :: k != key ==> has(l.nodeMap, k) == old(has(l.nodeMap, k)) && (has(l.nodeMap, k) ==> l.nodeMap[k] == old(l.nodeMap[k])))
 //@   ensures [C09 del.callback] old(has(l.nodeMap, key)) && l.deleteCallBackFn != nil ==> cb.count == old(cb.count) + 1 && cb.key == key && cb.val == old(eval(l.nodeMap[key]))
 //@   ensures [C09 del.nocallback] !old(has(l.nodeMap, key)) || l.deleteCallBackFn == nil ==> cb.count == old(cb.count)
-//@   ensures [C10 delete.unlocked] mu.held(addr.rwMu(l)) == 0 && mu.acq(addr.rwMu(l)) == old(mu.acq(addr.rwMu(l))) + 1
+//@   ensures [C10 C11 delete.unlocked] mu.held(addr.rwMu(l)) == 0 && mu.acq(addr.rwMu(l)) == old(mu.acq(addr.rwMu(l))) + 1
 
 //@ func (*LRUCache).Dump
 //@   requires lru.wf(l) && mu.held(addr.rwMu(l)) == 0
-//@   ensures [C10 dump.unlocked] mu.held(addr.rwMu(l)) == 0
+//@   ensures [C10 C11 dump.unlocked] mu.held(addr.rwMu(l)) == 0
 
 //@ func (*LRUCache).SetDelCallBackFn
 //@   requires l != nil
@@ -576,7 +576,7 @@ package valid
 //@   requires v != nil && ty != nil && rt.kind(ty) == 25 && cache.inv()
 //@   modifies cache.stored, lst.mem, lst.stamp, lst.size, mu.held, mu.acq, cb.count, cb.key, cb.val, "H.container/list.Element.Value"
 //@   ensures cache.inv()
-//@   ensures [C08 C12 transparent] entry.ok(ty, v.targetTag, result)
+//@   ensures [C08 C11 C12 transparent] entry.ok(ty, v.targetTag, result)
 //@   loop#0 invariant 0 <= fieldNum && fieldNum <= l && l == rt.numField(ty) && len(obj.fieldInfos) == l && fresh(sliceptr(obj.fieldInfos)) && allocated(sliceptr(obj.fieldInfos)) && obj.name == rt.name(ty)
 //@   loop#0 invariant forall(j Int :: 0 <= j && j < fieldNum ==> field.ok(ty, v.targetTag, j, obj.fieldInfos[j]))
 //@   loop#0 invariant forall(j Int :: fieldNum <= j && j < l ==> fi.zero(obj.fieldInfos[j]))
@@ -597,14 +597,15 @@ package valid
 //@ func NewVStruct
 //@   requires cache.inv()
 //@   modifies nothing
-//@   ensures vs.ok(result) && cache.inv() && result.ruleMap == nil
+//@   ensures [C11 C12 new.clean] vs.ok(result) && cache.inv() && result.ruleMap == nil && result.vc.validFn == nil && result.vc.valid2FieldsMap == nil && sb.content(result.errBuf) == "" && fresh(result) && fresh(result.vc) && fresh(result.errBuf)
 
 //@ func (*VStruct).free
 //@   requires vs.ok(v)
 //@   modifies sb.content(v.errBuf), v.ruleMap, v.vc
+//@   ensures [C11 C12 free.clean] v.ruleMap == nil && v.vc == nil && sb.content(v.errBuf) == ""
 
 //@ func (*VStruct).SetRule
-//@   ensures [C16 setrule.outer] len(obj) == 0 ==> v.ruleMap != nil && has(v.ruleMap, validOnlyOuterObj) && v.ruleMap[validOnlyOuterObj] == rule
+//@   ensures [C12 C16 setrule.outer] len(obj) == 0 ==> v.ruleMap != nil && has(v.ruleMap, validOnlyOuterObj) && v.ruleMap[validOnlyOuterObj] == rule
 //@   ensures [C16 setrule.many] len(obj) >= 2 ==> v.ruleMap == old(v.ruleMap)
 //@   requires vs.ok(v)
 //@   requires [C13 setrule.key] len(obj) == 1 ==> obj[0] != nil
@@ -641,7 +642,7 @@ package valid
 //@   loop#1 exhaustive [C02 C04 C17 walk.all]
 //@   requires vs.ok(v) && cache.inv() && !rv.ro(value)
 //@   modifies sb.content(v.errBuf), sb.nw(v.errBuf), cache.stored, lst.mem, lst.stamp, lst.size, mu.held, mu.acq, cb.count, cb.key, cb.val, "H.container/list.Element.Value", v.vc.valid2FieldsMap, "MapDom.String.Slice", "MapVal.String.Slice", "MapLen.String.Slice", "Mem.Int"
-//@   ensures [C08 C12 validate.post] result == v && vs.ok(v) && cache.inv()
+//@   ensures [C08 C11 C12 validate.post] result == v && vs.ok(v) && cache.inv()
 //@   loop#0 invariant vs.ok(v) && cache.inv() && 0 <= fieldNum && totalFieldNum == len(cacheStructType.fieldInfos) && entry.ok(ty, v.targetTag, cacheStructType)
 //@   loop#1 invariant vs.ok(v) && cache.inv() && entry.ok(ty, v.targetTag, cacheStructType) && 0 <= fieldNum && fieldNum < totalFieldNum
 
@@ -680,6 +681,7 @@ package valid
 //@   modifies sb.content(errBuf), sb.nw(errBuf)
 
 //@ func (*VStruct).getError
+//@   at call free#0 assert [C11 C12 geterror.free] true
 //@   at call New#0 assert [C02 geterror.text] sb.content(v.errBuf) != "" && text == ite(suffixof(ErrEndFlag, sb.content(v.errBuf)), sb.content(v.errBuf)[:len(sb.content(v.errBuf)) - len(ErrEndFlag)], sb.content(v.errBuf))
 //@   ensures [C02 geterror.nonnil] old(sb.content(v.errBuf)) != "" ==> result != nil
 //@   requires vs.ok(v)
@@ -698,11 +700,12 @@ package valid
 
 //@ func NewVVar
 //@   modifies nothing
-//@   ensures vv.ok(result) && result.ruleObj != nil
+//@   ensures [C11 C12 new.clean] vv.ok(result) && result.ruleObj != nil && len(result.ruleObj) == 0 && fresh(result.ruleObj) && result.vc.validFn == nil && result.vc.valid2FieldsMap == nil && sb.content(result.errBuf) == "" && fresh(result) && fresh(result.vc) && fresh(result.errBuf)
 
 //@ func (*VVar).free
 //@   requires vv.ok(v)
 //@   modifies sb.content(v.errBuf), v.ruleObj, v.vc
+//@   ensures [C11 C12 free.clean] v.ruleObj == nil && v.vc == nil && sb.content(v.errBuf) == ""
 
 //@ func (RM).Set
 //@   requires [C13 rm.nil] r != nil
@@ -736,6 +739,7 @@ package valid
 //@   loop#0 invariant vv.ok(v)
 
 //@ func (*VVar).getError
+//@   at call free#0 assert [C11 C12 geterror.free] true
 //@   at call New#0 assert [C02 geterror.text] sb.content(v.errBuf) != "" && text == ite(suffixof(ErrEndFlag, sb.content(v.errBuf)), sb.content(v.errBuf)[:len(sb.content(v.errBuf)) - len(ErrEndFlag)], sb.content(v.errBuf))
 //@   ensures [C02 geterror.nonnil] old(sb.content(v.errBuf)) != "" ==> result != nil
 //@   requires vv.ok(v)
